@@ -326,21 +326,23 @@ func RunSeeder(c *sim.Ctx) {
 		}
 		seeder.Start()
 
+		var outstanding func() bool
 		drain := func() {
-			// the reader polls every 10 ms while the pending limit is reached: idle = nothing pending for 3 polls
+			// idle = the model expects no further response and nothing is pending, for 3 polls of the reader's
+			// 10 ms wait loop (a reader in the middle of a multi-chunk request shows pending == 0 between chunks)
 			for i, stable := 0, 0; i < 4000 && stable < 3; i++ {
 				settle(15 * time.Millisecond)
-				if seeder.VerifPendingResponsesSize() == 0 {
+				if seeder.VerifPendingResponsesSize() == 0 && !outstanding() {
 					stable++
 				} else {
 					stable = 0
 				}
 			}
 		}
-		outstanding := func() bool {
+		outstanding = func() bool {
 			for _, q := range pendingReq {
 				for _, r := range q {
-					if r.expectNothing == "" && !(r.sess.done) {
+					if r.expectNothing == "" && !r.optional && !(r.sess.done) {
 						return true
 					}
 				}
@@ -379,12 +381,25 @@ func RunSeeder(c *sim.Ctx) {
 					}
 				}
 				_ = seeder.UnregisterPeer(fmt.Sprintf("p%d", pi))
+				settle(time.Millisecond) // the idle reader takes the unregistration before the next stimulus is queued
 			case "request":
 				if len(s.op.A) < 9 {
 					return
 				}
 				sid, st, sp := int(s.op.A[3]), int(s.op.A[4]), int(s.op.A[5])
 				num, size, chunks := int(s.op.A[6]), uint64(s.op.A[7]), int(s.op.A[8])
+				// a request that opens a session (and may prune another one) is only sent to an idle seeder: the
+				// model applies it at call time, which is right only if the reader is not lagging behind;
+				// requests that resume a live session may arrive while earlier responses are still in flight
+				creates := true
+				for _, l := range pm.live {
+					if l.sid == sid {
+						creates = false
+					}
+				}
+				if creates && s.op.A[2] != 1 {
+					drain()
+				}
 				rq := &reqRec{peer: pi, sid: sid, chunks: chunks, num: num, size: size}
 				if rq.num > maxNum {
 					rq.num = maxNum
